@@ -7,7 +7,7 @@
   header: `<id> probe <config> <batch> <iter|par> <n> <nots|ts<k>> <sink>`; ops: `s <stage> …`,
   `loop <replay|iterate> <max> <stop>`, `endloop <state|items|both>`;
   outputs: `p <probe> <position> <replica> <sequence>` (position `after:<op>` or `after:<op>/in-loop:<l1>.<l2>`,
-  sequence = comma separated kinds I T W FB FAR TERM, `K*n` = n times), `loop <id> <kind> <parent|-> <max>
+  sequence = comma separated tokens I T<ts> W<ts> FB FAR TERM, `tok*n` = n times), `loop <id> <kind> <parent|-> <max>
   <stop> execs <e> rounds <r> calls <c>`, or `blocked` / `panic:<class>` / `infra`.
 
   The interleaving of a real run is scheduler dependent: there is no model output to compare with, the
@@ -29,6 +29,9 @@
   `iterate` body with an all-to-all connection or an expanding stage, a small batch mode and more than 16
   batches of content per round); of its truncated traces
   only the prefix forms are checked: nothing after Terminate, not more FlushAndRestart than rounds started. A panic is a plain C05 failure.
+  C06 (second oracle, failures tagged `[C06]`): every probe line is watermark-safe (`Noir.wmSafeOk`): within
+  an iteration, after Watermark(w) no Timestamped(_, t) with t <= w and no Watermark(w') with w' <= w; the
+  message names the probe position and the offending pair.
   F11 (known finding): the only defect of a sequence is FlushBatch between the LAST FlushAndRestart and
   Terminate (removing exactly those makes (a) hold; (b)–(e) hold as they are) — classified
   `known:F11-flushbatch-between-last-far-and-terminate` like Driver/Start.lean does. Anything else is a plain failure.
@@ -37,14 +40,21 @@ import Driver.Proto
 namespace Noir.Driver.Probe
 open Noir Noir.Driver
 
-def kindElem : String → Option (Elem Unit)
+/-- `I`, `T<ts>`, `W<ts>`, `FB`, `FAR`, `TERM` (bare `T` / `W` of case files written before the
+    timestamps were recorded: timestamp 0, the C06 oracle skips such lines) -/
+def kindElem (s : String) : Option (Elem Unit) :=
+  match s with
   | "I" => some (.item ())
   | "T" => some (.ts () 0)
   | "W" => some (.wm 0)
   | "FB" => some .flushBatch
   | "FAR" => some .far
   | "TERM" => some .term
-  | _ => none
+  | _ =>
+    match s.toList with
+    | 'T' :: r => (String.ofList r).toInt?.map fun t => .ts () t
+    | 'W' :: r => (String.ofList r).toInt?.map fun t => .wm t
+    | _ => none
 
 def decodeSeq (s : String) : Option (List (Elem Unit)) :=
   if s == "-" then some [] else
@@ -56,6 +66,29 @@ def decodeSeq (s : String) : Option (List (Elem Unit)) :=
       let n ← n.toNat?
       pure (List.replicate n e)
     | _ => none).map List.flatten
+
+/-- does the raw sequence contain `T` / `W` tokens without a timestamp? -/
+def hasBareTs (s : String) : Bool :=
+  (s.splitOn ",").any fun (tok : String) =>
+    let k := (tok.splitOn "*").headD ""
+    k == "T" || k == "W"
+
+/-- first violation of watermark safety (`Noir.wmSafeGo` with a witness): the last watermark of the
+    current iteration and the offending element -/
+def wmViolation : Option Int → List (Elem Unit) → Option String
+  | _, [] => none
+  | w, .ts _ t :: rest =>
+    match w with
+    | some w => if w < t then wmViolation (some w) rest
+                else some s!"Watermark({w}) is followed by Timestamped(_, {t}) in the same iteration"
+    | none => wmViolation none rest
+  | w, .wm t :: rest =>
+    match w with
+    | some w => if w < t then wmViolation (some t) rest
+                else some s!"Watermark({w}) is followed by Watermark({t}) in the same iteration"
+    | none => wmViolation (some t) rest
+  | _, .far :: rest => wmViolation none rest
+  | w, _ :: rest => wmViolation w rest
 
 structure PLine where
   id : Nat
@@ -164,7 +197,7 @@ def stageTags (ops : List (List String)) : List String :=
   (names.map cat).eraseDups
 
 def isStatefulTag (t : String) : Bool :=
-  ["fold", "keyed-fold", "count-window", "event-time-window", "reorder", "zip", "join", "replay", "iterate"].contains t
+  ["fold", "keyed-fold", "count-window", "event-time-window", "reorder", "zip", "join", "ivjoin", "replay", "iterate"].contains t
 
 /-- nesting depth of the `loop` … `endloop` lines (as the harness parses them) -/
 def maxDepth (ops : List (List String)) : Nat :=
@@ -278,16 +311,27 @@ def handle (c : Case) : Verdict :=
           [s!"[C04] known:F18-iterate-shuffle-cross-replica-deadlock blocked: iterate body with an all-to-all connection / expanding stage, batch mode {bm}, up to {inIterMax} elements per round and replica (> 16 batches)"]
         else ["[C04] the job did not finish within the watchdog time (blocked)"]
       else []
+    -- C06: watermark safety of every probe line (`Noir.wmSafeOk`, the recogniser the C06 theorems are
+    -- about; it restarts at every FlushAndRestart). A safety property: truncated traces are checked too.
+    let c06 : List String := (pls.filter fun p => !hasBareTs p.raw).filterMap fun p =>
+      if wmSafeOk p.seq then none
+      else some s!"[C06] probe {p.id} ({p.pos}) replica {p.replica}: {(wmViolation none p.seq).getD "watermark safety violated"}: {shorten p.raw}"
     let fails := runFails ++ lineFails ++ agreeFails ++ loopFails
     let plain := fails.filter (!·.1)
     let known := fails.filter (·.1)
     let parts : List String :=
-      c04 ++
+      c04 ++ c06.take 3 ++
       (if !plain.isEmpty then (plain.take 4).map fun f => "[C05] " ++ f.2
        else match known with
         | [] => []
         | f :: _ => [s!"[C05] {f.2}" ++ (if known.length > 1 then s!" (+{known.length - 1} more probe lines)" else "")])
     let oracle : Option String := if parts.isEmpty then none else some (" ;; ".intercalate parts)
+    -- some probe saw Watermark(w) directly after Timestamped(_, w)
+    let rec adj : List (Elem Unit) → Bool
+      | .ts _ t :: .wm w :: rest => t == w || adj (.wm w :: rest)
+      | _ :: rest => adj rest
+      | [] => false
+    let wmAtTs := pls.any fun p => adj p.seq
     let stags := stageTags c.ops
     let maxRep := ids.foldl (fun m id => max m (pls.filter (·.id == id)).length) 0
     let nNat := n.toNat?.getD 0
@@ -302,6 +346,10 @@ def handle (c : Case) : Verdict :=
       (if !known.isEmpty then ["F11-seen"] else []) ++
       (if pls.any (fun p => p.seq.any isFb) then ["flushbatch-seen"] else []) ++
       (if pls.any (fun p => p.seq.any fun e => match e with | .wm _ => true | _ => false) then ["watermark-seen"] else []) ++
+      (if wmAtTs then ["watermark-at-element-timestamp"] else []) ++
+      (if (pls.filter fun p => !p.path.isEmpty).any (fun p => p.seq.any fun e => match e with | .wm _ => true | _ => false) then ["watermark-in-loop"] else []) ++
+      (let nwm := (pls.filter fun p => (p.seq.any fun e => match e with | .wm _ => true | _ => false)).length
+       [s!"wm-probe-lines{if nwm == 0 then "0" else if nwm < 10 then "1-9" else if nwm < 50 then "10-49" else "50+"}"]) ++
       (if special.contains "infra" then ["infra"] else []) ++
       (if special.contains "blocked" then ["blocked"] else []) ++
       (if f18region then ["F18-region"] else [])
